@@ -16,6 +16,7 @@ import (
 
 // HarnessSpec describes one harness function of the harness package and how to run it.
 type HarnessSpec struct {
+	ThoroughOnly bool // not part of the quick tier
 	Name            string
 	Profile         string            // "bit" (z3 first, cvc5 bv-as-int fallback) or "arith" (the reverse)
 	Quick, Thorough map[string]int    // named bounds read by the harness through verif.Bound
@@ -60,6 +61,7 @@ type HarnessResult struct {
 	MaxQuery   time.Duration
 	Wall       time.Duration
 	TimedOut   bool
+	Watchdog   int // queries on which a back end ignored its time limit and was killed (answered by the other back end)
 	StoppedEarly bool // a counterexample was confirmed natively during the exploration, which then ended
 	Remaining  int
 	Violations []Violation
@@ -273,6 +275,7 @@ func explore(ld *Loaded, spec HarnessSpec, tier string, seed int64, workers int,
 		res.Unknown += sv.Unknown
 		res.SolverTime += sv.Time
 		res.Fallbacks += sv.Fallbacks
+		res.Watchdog += sv.Watchdog
 		res.Slow += sv.Slow
 		if sv.MaxQ > res.MaxQuery {
 			res.MaxQuery = sv.MaxQ
@@ -320,7 +323,7 @@ func (e *Engine) runPath(st *State, fn *ssa.Function) (out pathEnd) {
 func (r *HarnessResult) print(w io.Writer, verbose bool) {
 	fmt.Fprintf(w, "harness %s tier=%s bounds=%v profile=%s\n", r.Spec.Name, r.Tier, r.Bounds, r.Spec.Profile)
 	fmt.Fprintf(w, "  paths=%d steps=%d decisions=%d outcomes=%v wall=%v timedout=%v remaining=%d\n", r.Paths, r.Steps, r.Decisions, r.Outcomes, r.Wall.Round(time.Millisecond), r.TimedOut, r.Remaining)
-	fmt.Fprintf(w, "  queries=%d sat=%d unsat=%d unknown=%d fallbacks=%d solver_time(sum)=%v maxquery=%v slow(>100ms)=%d\n", r.Queries, r.Sat, r.Unsat, r.Unknown, r.Fallbacks, r.SolverTime.Round(time.Millisecond), r.MaxQuery.Round(time.Millisecond), r.Slow)
+	fmt.Fprintf(w, "  queries=%d sat=%d unsat=%d unknown=%d fallbacks=%d watchdog=%d solver_time(sum)=%v maxquery=%v slow(>100ms)=%d\n", r.Queries, r.Sat, r.Unsat, r.Unknown, r.Fallbacks, r.Watchdog, r.SolverTime.Round(time.Millisecond), r.MaxQuery.Round(time.Millisecond), r.Slow)
 	fmt.Fprintf(w, "  covers=%v\n", r.Covers)
 	if forkStats != nil {
 		type kv struct {
